@@ -120,7 +120,8 @@ def fill(res, st, bound, gran, extra_rule=""):
         "samples": [st.sample] if st.sample else [],
         "distinct_outcomes": len(st.outcomes), "verdicts": st.verdicts,
         "bound_completed": bound if not st.capped else None, "exhaustive": not st.capped,
-        "stopped_at_first_new_violation": st.stopped_early}
+        "stopped_at_first_new_violation": st.stopped_early,
+        "audit": st.audit}
     return res
 
 
